@@ -234,6 +234,26 @@ fn any_ans(child: usize) -> Ans {
     }
 }
 
+/// The k-th kind of answer (k concrete, 0..5), its data symbolic.  Used where
+/// the answer decides whether validate compares the referral's delegation
+/// name with the NS owner: with a SYMBOLIC kind the `Referral` payload read
+/// after the match is a symbolic pointer and `Name == Name` through it did not
+/// finish (measured: 15+ min of symbolic execution).  The harness enumerates
+/// the five kinds one after the other instead; the space covered is the same.
+const NKIND: usize = 5;
+fn kind_ans(k: usize, child: usize) -> Ans {
+    match k {
+        0 => Ans::Found {
+            a: kani::any(),
+            aaaa: kani::any(),
+        },
+        1 => Ans::Cname,
+        2 => Ans::NxDomain,
+        3 => Ans::Referral { child },
+        _ => Ans::WrongZone,
+    }
+}
+
 fn any_class() -> (Class, u16) {
     let k: u8 = kani::any();
     if k == 0 {
@@ -791,28 +811,37 @@ fn c21_apex_ns_two_both() {
     kani::cover!(e.is_empty() && cc == 4, "HS: none");
 }
 
-// @harness props=C21 tier=quick mem=6 t=1800
+// @harness props=C21 tier=quick mem=6 t=2400
 //   fn="validation::validate,scan_node,check_delegation_ns_address,check_glue"
-//   bound="apex in order; node d.z. {NS ns.d.z.}; lookup_addrs(ns.d.z.) symbolic both without and with search_below_cuts (5 kinds each, A/AAAA presence; a referral names d.z. itself); class and glue policy symbolic; unwind 6"
-//   sym="class, policy, 2 table entries" stubs="S1,M1"
+//   bound="apex in order; node d.z. {NS ns.d.z.}; lookup_addrs(ns.d.z.): each of the 5 kinds in turn (Found with symbolic A/AAAA presence, Cname, NxDomain, Referral(d.z.), WrongZone) x a symbolic answer to the glue lookup (search_below_cuts: 5 kinds, A/AAAA presence); class and glue policy symbolic; unwind 6"
+//   sym="class, policy, A/AAAA presence, glue-lookup table entry" stubs="S1,M1"
 #[kani::proof]
 #[kani::unwind(6)]
 fn c21_delegation_own_ns() {
     let (class, class_code) = any_class();
     let (policy, wide) = any_policy();
     let mut f = base(class, class_code, policy, wide, &NODES_D_NSD);
-    f.table[N_NSD][0] = any_ans(N_D);
-    f.table[N_NSD][1] = any_ans(N_D);
-    let e = run(&f, 1);
-    let t0 = f.table[N_NSD][0];
-    let t1 = f.table[N_NSD][1];
+    let t1 = any_ans(N_D);
+    f.table[N_NSD][1] = t1;
+    let mut es = [IssueSet::empty(); NKIND];
+    let mut ts = [Ans::Cname; NKIND];
+    let mut k = 0;
+    while k < NKIND {
+        ts[k] = kind_ans(k, N_D);
+        f.table[N_NSD][0] = ts[k];
+        es[k] = run(&f, 1);
+        k += 1;
+    }
+    let e = &es[3];
     kani::cover!(e.has(K_GLUE, N_NSD) && !wide && matches!(t1, Ans::NxDomain), "narrow: missing glue for a name server inside the delegation");
     kani::cover!(e.has(K_GLUE, N_NSD) && wide && matches!(t1, Ans::Found { a: false, aaaa: false }), "wide: glue node without addresses");
-    kani::cover!(e.is_empty() && class_code == 1 && matches!(t0, Ans::Referral { .. }) && matches!(t1, Ans::Found { a: false, aaaa: true }), "IN: AAAA glue suffices");
+    kani::cover!(e.is_empty() && class_code == 1 && matches!(t1, Ans::Found { a: false, aaaa: true }), "IN: AAAA glue suffices");
     kani::cover!(e.has(K_GLUE, N_NSD) && class_code == 3 && matches!(t1, Ans::Found { a: false, aaaa: true }), "CH: AAAA glue does not count");
-    kani::cover!(e.has(K_NS_ADDR, N_NSD) && matches!(t0, Ans::Found { .. }), "name server in the zone proper without address");
-    kani::cover!(e.is_empty() && class_code == 1 && matches!(t0, Ans::WrongZone), "out-of-zone name server: nothing needed");
-    kani::cover!(e.is_empty() && class_code == 4 && matches!(t0, Ans::Referral { .. }) && matches!(t1, Ans::NxDomain), "HS: no glue check");
+    kani::cover!(e.is_empty() && class_code == 4 && matches!(t1, Ans::NxDomain), "HS: no glue check");
+    kani::cover!(es[0].has(K_NS_ADDR, N_NSD) && matches!(ts[0], Ans::Found { a: false, .. }), "name server in the zone proper without address");
+    kani::cover!(es[0].is_empty() && class_code == 1 && matches!(ts[0], Ans::Found { a: true, .. }), "name server in the zone proper with address");
+    kani::cover!(es[1].has(K_NS_ADDR, N_NSD) && es[2].has(K_NS_ADDR, N_NSD), "alias / non-existent name server");
+    kani::cover!(es[4].is_empty() && class_code == 1, "out-of-zone name server: nothing needed");
 }
 
 // @harness props=C21 tier=quick mem=6 t=1800
@@ -836,8 +865,8 @@ fn c21_delegation_sibling_ns() {
 
 // @harness props=C21 tier=quick mem=6 t=1800
 //   fn="validation::validate,scan_node,check_delegation_ns_address,check_glue"
-//   bound="apex in order; node d.z. {NS ns.d.z., NS ns.z.}; ns.d.z. is below the cut and has no glue (concrete: always MissingGlue in IN/CH), lookup_addrs(ns.z.) symbolic (a referral names the sibling e.z.); ns() = {x.} out of zone; class, policy symbolic; unwind 6"
-//   sym="class, policy, 1 table entry" stubs="S1,M1"
+//   bound="apex in order; node d.z. {NS ns.d.z., NS ns.z.}; ns.d.z. is below the cut and has no glue (concrete: always MissingGlue in IN/CH), lookup_addrs(ns.z.): each of the 5 kinds in turn (Found with symbolic A/AAAA presence; a referral names the sibling e.z., whose glue lookup fails); ns() = {x.} out of zone; class, policy symbolic; unwind 6"
+//   sym="class, policy, A/AAAA presence" stubs="S1,M1"
 #[kani::proof]
 #[kani::unwind(6)]
 fn c21_delegation_two_ns() {
@@ -848,12 +877,19 @@ fn c21_delegation_two_ns() {
     f.table[N_OUT][0] = Ans::WrongZone;
     f.table[N_NSD][0] = Ans::Referral { child: N_D };
     f.table[N_NSD][1] = Ans::NxDomain;
-    f.table[N_NSZ][0] = any_ans(N_E);
-    let e = run(&f, 2);
-    let t = f.table[N_NSZ][0];
-    kani::cover!(e.has(K_GLUE, N_NSD) && e.has(K_NS_ADDR, N_NSZ), "missing glue and missing address in one RRset");
-    kani::cover!(e.has(K_GLUE, N_NSD) && !e.has(K_NS_ADDR, N_NSZ) && matches!(t, Ans::Found { a: true, .. }), "missing glue only");
-    kani::cover!(e.has(K_GLUE, N_NSD) && !e.has(K_GLUE, N_NSZ) && !wide && matches!(t, Ans::Referral { .. }), "narrow: second name server in a sibling zone");
+    let mut es = [IssueSet::empty(); NKIND];
+    let mut ts = [Ans::Cname; NKIND];
+    let mut k = 0;
+    while k < NKIND {
+        ts[k] = kind_ans(k, N_E);
+        f.table[N_NSZ][0] = ts[k];
+        es[k] = run(&f, 2);
+        k += 1;
+    }
+    kani::cover!(es[2].has(K_GLUE, N_NSD) && es[2].has(K_NS_ADDR, N_NSZ), "missing glue and missing address in one RRset");
+    kani::cover!(es[0].has(K_GLUE, N_NSD) && !es[0].has(K_NS_ADDR, N_NSZ) && matches!(ts[0], Ans::Found { a: true, .. }), "missing glue only");
+    kani::cover!(es[3].has(K_GLUE, N_NSD) && !es[3].has(K_GLUE, N_NSZ) && !wide && class_code == 1, "narrow: second name server in a sibling zone needs no glue");
+    kani::cover!(es[3].has(K_GLUE, N_NSD) && es[3].has(K_GLUE, N_NSZ) && wide, "wide: both need glue");
 }
 
 // @harness props=C21 tier=quick mem=4 t=1200
@@ -879,8 +915,8 @@ fn c21_cname_nodes() {
 
 // @harness props=C21 tier=quick mem=6 t=1800
 //   fn="validation::validate,scan_node,check_delegation_ns_address"
-//   bound="one SOA, ns() = {x.} (out of zone); node *.z. {NS ns.z.}; lookup_addrs(ns.z.) symbolic; class, policy symbolic: NsAtWildcard (warning) always, plus the delegation checks for the target; unwind 6"
-//   sym="class, policy, 1 table entry" stubs="S1,M1"
+//   bound="one SOA, ns() = {x.} (out of zone); node *.z. {NS ns.z.}; lookup_addrs(ns.z.): each of the 5 kinds in turn (Found with symbolic A/AAAA presence; a referral names d.z., whose glue lookup fails); class, policy symbolic: NsAtWildcard (warning) always, plus the delegation checks for the target; unwind 6"
+//   sym="class, policy, A/AAAA presence" stubs="S1,M1"
 #[kani::proof]
 #[kani::unwind(6)]
 fn c21_wildcard_ns() {
@@ -889,12 +925,19 @@ fn c21_wildcard_ns() {
     let mut f = base(class, class_code, policy, wide, &NODES_WILD_NS);
     f.ns = Some(&RS_NS_OUT);
     f.table[N_OUT][0] = Ans::WrongZone;
-    f.table[N_NSZ][0] = any_ans(N_D);
-    let e = run(&f, 2);
-    let t = f.table[N_NSZ][0];
-    kani::cover!(e.has(K_NS_WILD, N_WILD) && class_code == 4, "NS at wildcard is reported in every class");
-    kani::cover!(e.has(K_NS_WILD, N_WILD) && e.has(K_NS_ADDR, N_NSZ), "warning and error together");
-    kani::cover!(e.has(K_NS_WILD, N_WILD) && !e.has(K_NS_ADDR, N_NSZ) && class_code == 1 && matches!(t, Ans::Found { a: true, .. }), "warning alone");
+    let mut es = [IssueSet::empty(); NKIND];
+    let mut ts = [Ans::Cname; NKIND];
+    let mut k = 0;
+    while k < NKIND {
+        ts[k] = kind_ans(k, N_D);
+        f.table[N_NSZ][0] = ts[k];
+        es[k] = run(&f, 2);
+        k += 1;
+    }
+    kani::cover!(es[4].has(K_NS_WILD, N_WILD) && class_code == 4, "NS at wildcard is reported in every class");
+    kani::cover!(es[2].has(K_NS_WILD, N_WILD) && es[2].has(K_NS_ADDR, N_NSZ), "warning and error together");
+    kani::cover!(es[0].has(K_NS_WILD, N_WILD) && !es[0].has(K_NS_ADDR, N_NSZ) && class_code == 1 && matches!(ts[0], Ans::Found { a: true, .. }), "warning alone");
+    kani::cover!(es[3].has(K_NS_WILD, N_WILD) && es[3].has(K_GLUE, N_NSZ) && wide, "wide: glue for a name server below another cut");
 }
 
 // @harness props=C21 tier=quick mem=4 t=1200
